@@ -1625,11 +1625,11 @@ func CharCode(vm *VM, char, code Term, k Cont, env *Env) *Promise {
 		case Variable:
 			return Error(InstantiationError(env))
 		case Integer:
-			r := rune(cd)
-
-			if !utf8.ValidRune(r) {
+			if cd < 0 || cd > utf8.MaxRune || !utf8.ValidRune(rune(cd)) {
 				return Error(representationError(flagCharacterCode, env))
 			}
+
+			r := rune(cd)
 
 			return Unify(vm, ch, Atom(r), k, env)
 		default:
@@ -2223,7 +2223,7 @@ func AtomCodes(vm *VM, atom, codes Term, k Cont, env *Env) *Promise {
 			case Variable:
 				return Error(InstantiationError(env))
 			case Integer:
-				if e < 0 || e > unicode.MaxRune {
+				if e < 0 || e > unicode.MaxRune || !utf8.ValidRune(rune(e)) {
 					return Error(representationError(flagCharacterCode, env))
 				}
 				_, _ = sb.WriteRune(rune(e))
@@ -2242,7 +2242,7 @@ func AtomCodes(vm *VM, atom, codes Term, k Cont, env *Env) *Promise {
 			case Variable:
 				break
 			case Integer:
-				if e < 0 || e > unicode.MaxRune {
+				if e < 0 || e > unicode.MaxRune || !utf8.ValidRune(rune(e)) {
 					return Error(representationError(flagCharacterCode, env))
 				}
 			default:
